@@ -762,6 +762,21 @@ func (g *vgen) fault(n ast.Node, stack []ast.Node) {
 			}
 		}
 	case *ast.CallExpr:
+		// an error / pointer argument becomes nil
+		if tv, ok := g.pk.TypesInfo.Types[x.Fun]; !ok || !tv.IsType() {
+			for _, a := range x.Args {
+				ti, okI := g.pk.TypesInfo.Types[a]
+				if !okI || ti.Type == nil {
+					continue
+				}
+				if id, isID := a.(*ast.Ident); isID && id.Name == "nil" {
+					continue
+				}
+				if _, isPtr := ti.Type.Underlying().(*types.Pointer); isPtr || ti.Type.String() == "error" {
+					g.add("nil-arg", a, "nil")
+				}
+			}
+		}
 		// swap two adjacent arguments of identical type
 		for i := 0; i+1 < len(x.Args); i++ {
 			ta, oka := g.pk.TypesInfo.Types[x.Args[i]]
